@@ -62,6 +62,36 @@ func C13_Truncate() {
 	}
 }
 
+// C13_TruncateBig: the same with every number of the dump in its longest
+// encoding: an int constant of nine bytes (>= 2^56 or negative), position and
+// line-feed entries of four and more bytes.
+func C13_TruncateBig() {
+	code := []byte{refbcl.OpCONST, 0, refbcl.OpPRINT, refbcl.OpRET}
+	d := &refbcl.Dump{Major: 1, Minor: 1, Name: "n", Code: code}
+	iv := verif.Int("int")
+	verif.Assume(uint64(iv) >= 1<<56)
+	d.Consts = []any{iv}
+	p0 := verif.Int("pos0")
+	verif.Assume(p0 >= 1<<24 && p0 < 1<<32)
+	d.Positions = []int{p0, 1 << 33, 1 << 41, 1 << 49}
+	l0 := verif.Int("lf0")
+	verif.Assume(l0 >= 1<<57)
+	d.Lfs = []int{67824, l0}
+	full := d.Encode()
+	cut := verif.Choice("cut", len(full)+1)
+	out, log := &symio.Writer{}, &symio.Writer{}
+	_, err := bcl.LoadProg(bytes.NewReader(full[:cut]), "x", bcl.OptOutput(out), bcl.OptLogger(log), bcl.OptDisasm(verif.Bool("disasm")))
+	verif.Observe("cut", cut)
+	verif.Observe("err", err != nil)
+	if cut < len(full) {
+		verif.Reach("proper-prefix")
+		verif.Assert(err != nil, "truncated-dump-rejected")
+	} else {
+		verif.Reach("whole")
+		verif.Assert(err == nil, "whole-dump-accepted")
+	}
+}
+
 // C13_Header: all 2^16 magic values and all version byte pairs.
 func C13_Header() {
 	full := c13ConcreteDump()
